@@ -1377,3 +1377,208 @@ def lin_of(body, o, depth=40):
         return Lin.atom(("l", l))
 
     return ev_op(o, depth)
+
+
+
+# ------------------------------------------------------------------------------------------------
+# appended: which enum variant does an operand hold at a call site, per side of a branch (used by R2.5 / R14.x)
+
+def reaching_variants(body, starts, at_bb, operand, avoid=()):
+    """Variant names the enum-valued `operand` of block at_bb's terminator may hold when at_bb is reached from the
+    blocks `starts` (nothing known on entry; feasible paths, core.FA) without entering a block of `avoid`.
+    A constant operand or a local built by one aggregate answers directly; a local assigned on several paths
+    (`let mode = if c { A } else { B }; .. f(mode)`) answers with the definitions that reach at_bb from `starts`:
+    a definition reaches when its block is reachable from `starts` and at_bb from it without passing another
+    definition of the same local. Returns a set of names; it contains None when a reaching definition is not a plain
+    variant (unknown value)."""
+    from core import FA
+    ba = BA.of(body)
+    fa = FA.of(body)
+    c = op_const(operand)
+    if c is not None:
+        return {c.get("variant")}
+    l = op_local(operand)
+    if l is None or op_place(operand)["p"]:
+        return {None}
+    region = fa.reach_incl(list(starts), avoid=frozenset(avoid))
+    if at_bb not in region:
+        return set()
+    out = set()
+    seen = set()
+    todo = [(l, at_bb)]
+    while todo:
+        x, use_bb = todo.pop()
+        if (x, use_bb) in seen:
+            continue
+        seen.add((x, use_bb))
+        ds = [d for d in ba.defs.get(x, []) if d[0] in ("stmt", "call", "yield")]
+        if not ds or any(d[0] == "field" or d[0] == "callfield" for d in ba.defs.get(x, [])):
+            out.add(None)
+            continue
+        blocks = {d[1] for d in ds}
+        for d in ds:
+            db = d[1]
+            if len(ds) > 1:
+                if db not in region:
+                    continue
+                if db != use_bb and ba.path([db], [use_bb], avoid=frozenset(blocks - {db}), incl=False) is None:
+                    continue
+            if d[0] != "stmt":
+                out.add(None)
+                continue
+            rv = d[3]
+            if rv["k"] == "agg" and rv.get("agg") == "adt" and rv.get("variant") is not None:
+                out.add(rv["variant"])
+            elif rv["k"] == "use" and op_const(rv["op"]) is not None:
+                out.add(op_const(rv["op"]).get("variant"))
+            elif rv["k"] == "use" and op_place(rv["op"]) is not None and not op_place(rv["op"])["p"]:
+                todo.append((op_local(rv["op"]), db))
+            else:
+                out.add(None)
+    return out
+
+
+def returned_ok_blocks(body):
+    """Blocks that build a `Result::Ok` value which the body *returns* (value origins of the return place) - unlike
+    "every Ok aggregate in the body", this leaves out the Ok results of Result-returning helpers that canon spliced
+    in (they feed a `?` of the body, not its return value)."""
+    ba = BA.of(body)
+    return sorted({bb for kind, bb, rv in value_origins(body, 0)
+                   if kind == "agg" and rv.get("adt") == "core::result::Result" and rv.get("variant") == "Ok" and bb in ba.live and not body.is_cleanup(bb)})
+
+
+# ------------------------------------------------------------------------------------------------
+# appended: a closure that a body builds and runs itself is part of that body
+
+_SPLICED = {}
+_MARK = 10 ** 9
+_FN_CALL = re.compile(r"(<.* as )?core::ops::function::Fn(Mut|Once)?(<.*>)?>?::call(_mut|_once)?")
+
+
+def _local_closure_call_sites(prog, body):
+    """[(call block, closure body, closure-aggregate operands or None)] calls in `body` that run a closure whose
+    aggregate is built in `body` itself (`let f = |..| ..; f(..)`, or a closure handed to a generic helper
+    `with_txn(env, |ptx, me| ..)` that canon spliced into `body`, so that construction and `FnOnce::call_once`
+    now sit in the same body)."""
+    ba = BA.of(body)
+    out = []
+    for i in ba.all_calls():
+        t = body.blocks[i]["term"]
+        if len(t.get("args", [])) != 2 or not any(_FN_CALL.fullmatch(p) for p in callee_paths(t)) and not _FN_CALL.fullmatch(strip_generics(t.get("callee", "")) or ""):
+            continue
+        l0 = op_local(t["args"][0])
+        if l0 is None or op_place(t["args"][0])["p"]:
+            continue
+        for x in ba.ref_chain(l0):
+            d = ba.single_def(x)
+            if d and d[0] == "stmt" and d[3]["k"] == "agg" and d[3].get("agg") == "closure":
+                cb = prog.bodies.get(strip_generics(d[3]["def"]))
+                if cb is not None and cb.kind == "Closure" and not cb.coroutine and cb.key != body.key:
+                    out.append((i, cb, d[3]["ops"]))
+                break
+    return out
+
+
+def splice_local_closures(prog, body, rounds=4):
+    """`body` with every closure it builds *and calls itself* spliced in at the call (same key, same span; a new
+    Body object, cached). Rules stated on "the command's body" then see the statements of a closure the command runs
+    inside its transaction skeleton exactly as if they were written in line: must-pass-through, dominance and value
+    flow go through. Parameter passing: the closure's environment local is the closure value, its other parameters are
+    the elements of the argument tuple; reads of a captured variable are rewritten to the captured operand when that
+    is a plain local. Bodies without such call sites are returned unchanged."""
+    import copy
+    import canon
+    from facts import Body
+    ck = (id(prog), body.key)
+    if ck in _SPLICED:
+        return _SPLICED[ck]
+    cur = body
+    for _ in range(rounds):
+        sites = _local_closure_call_sites(prog, cur)
+        if not sites:
+            break
+        bb, cb, cops = sites[0]
+        B = copy.deepcopy(cur.d)
+        H = copy.deepcopy(cb.d)
+        t = B["blocks"][bb]["term"]
+        cba = BA.of(cur)
+        # spread the argument tuple
+        tl = op_local(t["args"][1])
+        td = cba.single_def(tl) if tl is not None else None
+        n = H["arg_count"] - 1
+        if td and td[0] == "stmt" and td[3]["k"] == "agg" and td[3].get("agg") == "tuple" and len(td[3]["ops"]) == n and td[1] == bb:
+            spread = [copy.deepcopy(o) for o in td[3]["ops"]]
+        else:
+            spread = [{"move": {"l": tl, "p": ["f:tuple.%d" % j]}} for j in range(n)] if tl is not None else []
+        if len(spread) != n:
+            break
+        # captured variables: `_1.upvar.N` (or `(*_1).upvar.N`) reads become reads of the captured operand
+        caps = {}
+        for k_, o in enumerate(cops or []):
+            p = op_place(o)
+            if p is not None:
+                caps[k_] = p
+
+        def fix(v):
+            if isinstance(v, dict):
+                if "l" in v and "p" in v and v["l"] == 1 and isinstance(v["p"], list):
+                    pr = list(v["p"])
+                    j = 0
+                    while j < len(pr) and pr[j] == "deref":
+                        j += 1
+                    if j < len(pr) and isinstance(pr[j], str) and pr[j].startswith("f:upvar."):
+                        idx = int(pr[j][2:].split(".", 2)[1])
+                        if idx in caps:
+                            return {"l": -(_MARK + idx), "p": pr[j + 1:]}
+                    return v
+                return {k: fix(x) for k, x in v.items()}
+            if isinstance(v, list):
+                return [fix(x) for x in v]
+            return v
+        H["blocks"] = fix(H["blocks"])
+        t["args"] = [t["args"][0]] + spread
+        loff = len(B["locals"])
+        canon._inline_one(B, bb, H)
+
+        def unfix(v):
+            # captured operands live in the enclosing body: undo the shift canon applied to the marker locals
+            if isinstance(v, dict):
+                if "l" in v and "p" in v and isinstance(v["l"], int) and v["l"] - loff <= -_MARK:
+                    cp = caps[-(v["l"] - loff) - _MARK]
+                    return {"l": cp["l"], "p": list(cp["p"]) + list(v["p"])}
+                return {k: unfix(x) for k, x in v.items()}
+            if isinstance(v, list):
+                return [unfix(x) for x in v]
+            return v
+        B["blocks"] = unfix(B["blocks"])
+        cur = Body(body.unit, B)
+    _SPLICED[ck] = cur
+    return cur
+
+
+def str_literals(body):
+    """Every string literal the body mentions: core.str_consts plus `&str` constants that reach MIR as a type-level
+    constant (a string used as a *pattern*: `if let (NAME, Some(x)) = (s, y)`, `match s { "lit" => .. }`), which carry
+    only their pretty-printed form."""
+    out = [s for (_, _, s, _) in str_consts(body)]
+    live = body.reachable()
+
+    def visit(c):
+        if c is not None and "str" not in c and c.get("ty") == "&str":
+            pr = c.get("tyconst") or c.get("pretty") or ""
+            m = re.fullmatch(r'(?:const )?"(.*)"', pr, re.S)
+            if m:
+                out.append(m.group(1).replace('\\"', '"').replace("\\\\", "\\"))
+    from core import rvalue_consts
+    for i, blk in enumerate(body.blocks):
+        if i not in live:
+            continue
+        for s in blk["stmts"]:
+            if s["s"] == "assign":
+                for c in rvalue_consts(s["rv"]):
+                    visit(c)
+        t = blk["term"]
+        if t["t"] == "call":
+            for a in t["args"]:
+                visit(op_const(a))
+    return out
